@@ -626,11 +626,11 @@ pub fn run(rep: &mut Report, thorough: bool) {
     // PSH|ACK x urgent pointer x window x TCP options, two and three departures at once
     {
         let t0 = std::time::Instant::now();
-        let firsts: Vec<&Payload> = pls.iter().filter(|p| ["http-get", "ssh-2", "smb2-negotiate", "rpc-tcp-getport", "ghost"].contains(&p.name)).collect();
+        let firsts: Vec<&Payload> = pls.iter().filter(|p| ["http-get", "ssh-2", "smb2-negotiate", "rpc-tcp-getport", "ghost", "stun-classic-empty", "stun-classic-change-port", "dns-a"].contains(&p.name)).collect();
         let f = flow(false, 40000, 80);
         let ck = learn_cookies(&cfg, &[f.clone()]).unwrap_or_default();
         let c = ck.get(&key_of(&f)).copied().unwrap_or(0).wrapping_add(1);
-        let extra: [u16; 6] = [0, crate::wire::F_URG, crate::wire::F_URG | 0x40, 0x80, crate::wire::F_URG | 0xc0, 0x100 | crate::wire::F_URG];
+        let extra: [u16; 9] = [0, crate::wire::F_URG, crate::wire::F_URG | 0x40, 0x80, crate::wire::F_URG | 0xc0, 0x100 | crate::wire::F_URG, crate::wire::F_FIN, crate::wire::F_FIN | crate::wire::F_URG, crate::wire::F_FIN | 0x40];
         let opt_sets: [&[u8]; 3] = [&[], &[1, 1, 1, 0], &[2, 4, 5, 0xb4, 1, 3, 3, 7]];
         let mut plan: Vec<(usize, u16, u16, u16, usize)> = Vec::new();
         for (pi, p) in firsts.iter().enumerate() {
@@ -675,7 +675,9 @@ pub fn run(rep: &mut Report, thorough: bool) {
                         crate::sig::Proto::RpcUdp => "rpc-udp",
                         crate::sig::Proto::Smb1 | crate::sig::Proto::Smb2 => "smb",
                     },
-                    _ => return,
+                    // a payload that completes no STREAM signature (a cookie-less STUN request, a
+                    // DNS query): no responder, whatever the segment's other fields say
+                    _ => "nobody",
                 };
                 let app = it.outs[1].reply.as_deref().and_then(crate::mask::app_payload).map(|(_, p)| p).unwrap_or_default();
                 let got = if app.is_empty() { "nobody" } else { responder_of(&app) };
@@ -693,7 +695,7 @@ pub fn run(rep: &mut Report, thorough: bool) {
             },
             &mut rep.sink,
         );
-        rep.stage("segment-header-combinations", "5 protocols' first requests x 6 flag sets next to PSH|ACK (URG, ECE, CWR, NS combinations) x 15 urgent pointers (0..9, around the payload length, 0x8000, 0xffff) x 3 windows x 3 TCP option sets: answered by the responder of the leading payload bytes", plan.len() as u64, t0);
+        rep.stage("segment-header-combinations", "5 protocols' first requests and 3 payloads that complete no stream signature (cookie-less STUN with and without CHANGE-REQUEST, DNS) x 9 flag sets next to PSH|ACK (URG, ECE, CWR, NS, FIN combinations) x 15 urgent pointers (0..9, around the payload length, 0x8000, 0xffff) x 3 windows x 3 TCP option sets: answered by the responder of the leading payload bytes", plan.len() as u64, t0);
     }
     // near misses at the observable level: datagrams / first segments whose leading bytes complete
     // NO published signature (one literal byte of the signature altered; or, for the end-anchored
